@@ -21,10 +21,14 @@
 #define GALOIS_SUBSTRATE_COMPILERSPECIFIC_H
 
 #include "galois/config.h"
+#include "galois/substrate/Verif.h"
 
 namespace galois::substrate {
 
 inline static void asmPause() {
+#ifdef GALOIS_VERIF
+  galois::verif::spin();
+#endif
 #if defined(__i386__) || defined(__amd64__)
   //  __builtin_ia32_pause();
   asm volatile("pause");
